@@ -467,8 +467,9 @@ func VerifC13In() {
 
 // ---------- list indexing ----------
 
-// VerifC13Index: list[i] for i >= 0 is the i-th element when i < len(list), NULL otherwise
-// (negative i panics: C07).
+// VerifC13Index: list[i] is the i-th element when 0 <= i < len(list), NULL otherwise. NEG=0
+// restricts to i >= 0 (on the pinned baseline a negative index panicked - C07; since repo commit
+// 73c045e it yields NULL, which NEG=1 asserts).
 func VerifC13Index() {
 	setup()
 	n := zzverif.Param("N")
@@ -476,10 +477,12 @@ func VerifC13Index() {
 	lt := listOf(et)
 	l := vx.ValueOfType("l", lt, n, zzverif.Param("S"))
 	i := zzverif.Int64("i")
-	zzverif.Assume(i >= 0)
+	if zzverif.Param("NEG") == 0 {
+		zzverif.Assume(i >= 0)
+	}
 	r := call("[]", []octosql.Type{lt, tInt}, []octosql.Value{l, octosql.NewInt(i)})
 	zzverif.Reach("evaluated")
-	want := zzverif.And(i >= int64(len(l.List)), isNull(r))
+	want := zzverif.And(zzverif.Or(i < 0, i >= int64(len(l.List))), isNull(r))
 	for j := range l.List {
 		want = zzverif.Or(want, zzverif.And(i == int64(j), scalarEq(r, l.List[j])))
 	}
@@ -497,8 +500,8 @@ func coalesceTypes(ct int) []octosql.Type {
 		out = append(out, vx.Nullable(tTime), vx.Nullable(tDur), vx.Nullable(listOf(tInt)), vx.Nullable(obj), obj)
 	}
 	if ct >= 2 {
-		// tuples: ObjectLayoutFixer.fixLayout indexes value.List for a tuple value and panics (C07);
-		// not part of the C13 configuration
+		// tuples: on the pinned baseline ObjectLayoutFixer.fixLayout indexed value.List for a tuple
+		// value and panicked (C07 suspect, repaired in repo commit dd819f6)
 		out = append(out, vx.Nullable(tupleOf(tInt, tStr)))
 	}
 	return out
